@@ -122,6 +122,11 @@ func (f LinkFrame) Seal(encrypt *state.EncryptionSession) error {
 
 // Unseal decrypts the link frame.
 func (f LinkFrame) Unseal(encrypt *state.EncryptionSession) error {
+	// Check minimum size.
+	if len(f) < FrameOffset+FrameOverhead {
+		return fmt.Errorf("link frame is too small (%d bytes)", len(f))
+	}
+
 	// Prepare.
 	seqNum := f.SequenceNum()
 	c, err := encrypt.In(seqNum, false)
